@@ -71,6 +71,10 @@ type streamableHTTPClientTransport struct {
 	// This field is set by auto-detection when no session ID is provided in the initialize response.
 	isStateless bool
 
+	// stateMu guards sessionID, lastEventID, isStateless and enableGetSSE, which are shared between
+	// concurrent calls and the GET SSE goroutine.
+	stateMu sync.RWMutex
+
 	// Logger for this client transport.
 	logger Logger
 
@@ -257,15 +261,15 @@ func (t *streamableHTTPClientTransport) send(
 	// Set request headers - accept both SSE and JSON responses
 	httpReq.Header.Set(httputil.ContentTypeHeader, httputil.ContentTypeJSON)
 	httpReq.Header.Set(httputil.AcceptHeader, httputil.ContentTypeJSON+", "+httputil.ContentTypeSSE)
-	if t.sessionID != "" && !t.isStateless {
-		httpReq.Header.Set(httputil.SessionIDHeader, t.sessionID)
+	if t.getSessionID() != "" && !t.isStatelessMode() {
+		httpReq.Header.Set(httputil.SessionIDHeader, t.getSessionID())
 	}
 
 	// If lastEventID is provided, attach it to the request
 	if options != nil && options.lastEventID != "" {
 		httpReq.Header.Set(httputil.LastEventIDHeader, options.lastEventID)
-	} else if t.lastEventID != "" {
-		httpReq.Header.Set(httputil.LastEventIDHeader, t.lastEventID)
+	} else if t.getLastEventID() != "" {
+		httpReq.Header.Set(httputil.LastEventIDHeader, t.getLastEventID())
 	}
 
 	// Add custom headers
@@ -291,11 +295,10 @@ func (t *streamableHTTPClientTransport) send(
 	// Handle session ID
 	if sessionID := httpResp.Header.Get(httputil.SessionIDHeader); sessionID != "" {
 		t.setSessionID(sessionID)
-		t.isStateless = false
-	} else if req.Method == MethodInitialize && !t.isStateless {
+		t.setStateless(false)
+	} else if req.Method == MethodInitialize && !t.isStatelessMode() {
 		// If this is an initialize request and no session ID was received, auto-detect as stateless mode
-		t.isStateless = true
-		t.enableGetSSE = false // Disable GET SSE in stateless mode
+		t.setStateless(true) // Also disables GET SSE in stateless mode
 	}
 
 	// Check content type
@@ -470,7 +473,7 @@ func (t *streamableHTTPClientTransport) handleSSEResponse(
 
 			// Process event ID
 			if strings.HasPrefix(line, "id:") {
-				t.lastEventID = strings.TrimSpace(strings.TrimPrefix(line, "id:"))
+				t.setLastEventID(strings.TrimSpace(strings.TrimPrefix(line, "id:")))
 				continue
 			}
 
@@ -529,8 +532,8 @@ func (t *streamableHTTPClientTransport) sendNotification(ctx context.Context, no
 	// Set request headers - must accept both JSON and SSE responses per MCP specification.
 	httpReq.Header.Set(httputil.ContentTypeHeader, httputil.ContentTypeJSON)
 	httpReq.Header.Set(httputil.AcceptHeader, httputil.ContentTypeJSON+", "+httputil.ContentTypeSSE)
-	if t.sessionID != "" {
-		httpReq.Header.Set(httputil.SessionIDHeader, t.sessionID)
+	if t.getSessionID() != "" {
+		httpReq.Header.Set(httputil.SessionIDHeader, t.getSessionID())
 	}
 
 	// Add custom headers
@@ -562,7 +565,7 @@ func (t *streamableHTTPClientTransport) sendNotification(ctx context.Context, no
 
 	// Handle session ID
 	if sessionID := httpResp.Header.Get(httputil.SessionIDHeader); sessionID != "" {
-		t.sessionID = sessionID
+		t.setSessionID(sessionID)
 	}
 
 	// Check status code
@@ -605,12 +608,47 @@ func (t *streamableHTTPClientTransport) close() error {
 
 // GetSessionID gets the session ID
 func (t *streamableHTTPClientTransport) getSessionID() string {
+	t.stateMu.RLock()
+	defer t.stateMu.RUnlock()
 	return t.sessionID
 }
 
 // SetSessionID sets the session ID
 func (t *streamableHTTPClientTransport) setSessionID(sessionID string) {
+	t.stateMu.Lock()
+	defer t.stateMu.Unlock()
 	t.sessionID = sessionID
+}
+
+// getLastEventID returns the ID of the last SSE event seen.
+func (t *streamableHTTPClientTransport) getLastEventID() string {
+	t.stateMu.RLock()
+	defer t.stateMu.RUnlock()
+	return t.lastEventID
+}
+
+// setLastEventID records the ID of the last SSE event seen.
+func (t *streamableHTTPClientTransport) setLastEventID(id string) {
+	t.stateMu.Lock()
+	defer t.stateMu.Unlock()
+	t.lastEventID = id
+}
+
+// setStateless records the auto-detected mode; stateless mode also disables GET SSE.
+func (t *streamableHTTPClientTransport) setStateless(stateless bool) {
+	t.stateMu.Lock()
+	defer t.stateMu.Unlock()
+	t.isStateless = stateless
+	if stateless {
+		t.enableGetSSE = false
+	}
+}
+
+// getSSEEnabled reports whether a GET SSE connection should be established.
+func (t *streamableHTTPClientTransport) getSSEEnabled() bool {
+	t.stateMu.RLock()
+	defer t.stateMu.RUnlock()
+	return t.enableGetSSE
 }
 
 // Establish GET SSE connection
@@ -651,7 +689,7 @@ func (t *streamableHTTPClientTransport) establishGetSSE(parentCtx context.Contex
 // Connect to GET SSE endpoint
 func (t *streamableHTTPClientTransport) connectGetSSE(ctx context.Context) error {
 	// Check if there's a session ID
-	if t.sessionID == "" {
+	if t.getSessionID() == "" {
 		return fmt.Errorf("cannot establish GET SSE connection: session ID is empty")
 	}
 
@@ -666,9 +704,9 @@ func (t *streamableHTTPClientTransport) connectGetSSE(ctx context.Context) error
 
 	// Set necessary headers
 	req.Header.Set(httputil.AcceptHeader, httputil.ContentTypeSSE)
-	req.Header.Set(httputil.SessionIDHeader, t.sessionID)
-	if t.lastEventID != "" {
-		req.Header.Set(httputil.LastEventIDHeader, t.lastEventID)
+	req.Header.Set(httputil.SessionIDHeader, t.getSessionID())
+	if t.getLastEventID() != "" {
+		req.Header.Set(httputil.LastEventIDHeader, t.getLastEventID())
 	}
 
 	// Add custom headers
@@ -685,7 +723,7 @@ func (t *streamableHTTPClientTransport) connectGetSSE(ctx context.Context) error
 		}
 	}
 
-	t.logger.Debugf("Attempting to establish GET SSE connection, session ID: %s", t.sessionID)
+	t.logger.Debugf("Attempting to establish GET SSE connection, session ID: %s", t.getSessionID())
 
 	// Send request
 	resp, err := t.httpReqHandler.Handle(ctx, t.httpClient, req)
@@ -705,7 +743,7 @@ func (t *streamableHTTPClientTransport) connectGetSSE(ctx context.Context) error
 	}
 
 	// Handle response
-	t.logger.Debugf("GET SSE connection established, session ID: %s", t.sessionID)
+	t.logger.Debugf("GET SSE connection established, session ID: %s", t.getSessionID())
 
 	// Handle SSE event stream
 	return t.handleGetSSEEvents(ctx, resp.Body)
@@ -741,7 +779,7 @@ func (t *streamableHTTPClientTransport) handleGetSSEEvents(ctx context.Context, 
 			if strings.HasPrefix(line, "id:") {
 				eventID = strings.TrimPrefix(line, "id:")
 				eventID = strings.TrimSpace(eventID)
-				t.lastEventID = eventID
+				t.setLastEventID(eventID)
 			} else if strings.HasPrefix(line, "data:") {
 				data := strings.TrimPrefix(line, "data:")
 				data = strings.TrimSpace(data)
@@ -760,7 +798,7 @@ func (t *streamableHTTPClientTransport) handleGetSSEEvents(ctx context.Context, 
 // Process SSE event.
 func (t *streamableHTTPClientTransport) processSSEEvent(eventID, eventData string) {
 	// Store the last event ID for connection recovery.
-	t.lastEventID = eventID
+	t.setLastEventID(eventID)
 
 	// Skip empty events.
 	if eventData == "" {
@@ -910,8 +948,8 @@ func (t *streamableHTTPClientTransport) sendResponseToServer(response interface{
 	}
 
 	// Add session ID if available
-	if t.sessionID != "" {
-		httpReq.Header.Set(httputil.SessionIDHeader, t.sessionID) // Use correct MCP protocol header: Mcp-Session-Id.
+	if t.getSessionID() != "" {
+		httpReq.Header.Set(httputil.SessionIDHeader, t.getSessionID()) // Use correct MCP protocol header: Mcp-Session-Id.
 	}
 
 	// Apply HTTP before-request functions.
@@ -954,8 +992,8 @@ func (t *streamableHTTPClientTransport) terminateSession(ctx context.Context) er
 	}
 
 	// Set session ID header
-	if t.sessionID != "" {
-		httpReq.Header.Set(httputil.SessionIDHeader, t.sessionID)
+	if t.getSessionID() != "" {
+		httpReq.Header.Set(httputil.SessionIDHeader, t.getSessionID())
 	} else {
 		return fmt.Errorf("no active session")
 	}
@@ -989,7 +1027,7 @@ func (t *streamableHTTPClientTransport) terminateSession(ctx context.Context) er
 	}
 
 	// Session successfully terminated, clear session ID
-	t.sessionID = ""
+	t.setSessionID("")
 
 	return nil
 }
@@ -1003,6 +1041,8 @@ func (t *streamableHTTPClientTransport) terminateSession(ctx context.Context) er
 // If it returns true, the client is currently running in stateless mode and will not include
 // a session ID in requests or attempt to establish GET SSE connections.
 func (t *streamableHTTPClientTransport) isStatelessMode() bool {
+	t.stateMu.RLock()
+	defer t.stateMu.RUnlock()
 	return t.isStateless
 }
 
@@ -1017,12 +1057,12 @@ func (t *streamableHTTPClientTransport) sendRequestWithStream(
 
 // establishGetSSEConnection attempts to establish a GET SSE connection if enabled
 func (t *streamableHTTPClientTransport) establishGetSSEConnection(ctx context.Context) {
-	if !t.enableGetSSE {
+	if !t.getSSEEnabled() {
 		t.logger.Debug("GET SSE is not enabled, will not establish GET SSE connection")
 		return
 	}
 
-	if t.sessionID == "" {
+	if t.getSessionID() == "" {
 		t.logger.Debug("Session ID is empty, cannot establish GET SSE connection")
 		return
 	}
